@@ -58,6 +58,7 @@ type cacheParams struct {
 	Shards   int    `json:"shards"`
 	Limit    int64  `json:"limit"`
 	Interval int    `json:"interval_ms"`
+	Budget   int    `json:"budget_percent"` // memory budget at construction (0 = 75, -1 = an explicit 0)
 }
 
 var scratchRoot = func() string {
@@ -132,7 +133,13 @@ func newHCache(p cacheParams) *hcache {
 		h.file = NewFileCache[vmeta](h.cfg, h.dir, p.Limit, h.interval, p.Shards, ctx)
 		h.c = h.file
 	default:
-		h.mem = NewMemoryCache[vmeta](h.cfg, 75, p.Limit, h.interval, p.Shards, ctx)
+		budget := p.Budget
+		if budget == 0 {
+			budget = 75
+		} else if budget < 0 {
+			budget = 0
+		}
+		h.mem = NewMemoryCache[vmeta](h.cfg, budget, p.Limit, h.interval, p.Shards, ctx)
 		h.c = h.mem
 	}
 	// let the janitor goroutine reach its select (ticker armed) before anything else happens:
